@@ -509,6 +509,10 @@ theorem c08_inv_decode (P : Nat) (d : Dec) (p : Pkt) (hi : Inv P d) (hp : p.payl
       omega
     split <;> exact hclear
 
+/-- (F) the decoder struct has exactly two byte-carrying fields (`fragments`, `sliceBuffer`, both
+`[][]byte`) — what `retained` sums (regenerated from /repo on every run) -/
+theorem c08_state_fields : CodecMisc.mpeg1videoDecoderSliceFields = 2 := by decide
+
 /-- **C08 bounded memory**: retained bytes ≤ maximum frame size + one packet. -/
 theorem c08_retained_le (P : Nat) (d : Dec) (hi : Inv P d) : retained d ≤ maxFrameSize + P := by
   unfold retained
